@@ -85,7 +85,11 @@ class TCPServer:
                     with trio.CancelScope() as cancel_scope:
                         cancel_scope.shield = True
                         await self.stream.send_all(event.data)
-                except (trio.BrokenResourceError, trio.ClosedResourceError):
+                except (
+                    trio.BrokenResourceError,
+                    trio.BusyResourceError,  # _close is sending the EOF
+                    trio.ClosedResourceError,
+                ):
                     await self.protocol.handle(Closed())
         elif isinstance(event, Closed):
             await self._close()
